@@ -60,7 +60,7 @@ pub fn gen_head(rng: &Rng, max: usize, wild: bool) -> Vec<u8> {
                 3 => 0x82,
                 4 => 0xac,
                 5 => 0xff,
-                6 => b' ',
+                6 if rng.chance(1, 40) => b' ',
                 _ => *rng.pick(b"abcXYZ019_"),
             })
             .collect();
